@@ -5,7 +5,6 @@ use crate::checks::c02::Edit1;
 use crate::engine::{guard, panic_site, Check, Finding, Meta, Sink, Space, Tier};
 use crate::model::edits::*;
 use crate::obs::{self, View};
-use std::time::Instant;
 use xml_dom::PrettyPrint;
 
 pub struct C03C;
